@@ -184,9 +184,7 @@ func (e *ExecutorEngine) handleNonSubscriptionOperation(ctx context.Context, id 
 	defer func() {
 		// a cancelled context means the operation was stopped and its id released already; the id
 		// may belong to a new operation by now, which must not be cancelled from here
-		if ctx.Err() == nil {
-			e.subCancellations.Cancel(id)
-		}
+		e.subCancellations.CancelOwn(id, ctx)
 		err := e.executorPool.Put(executor)
 		if err != nil {
 			e.logger.Error("subscription.Handle.handleNonSubscriptionOperation()",
